@@ -621,13 +621,137 @@ func finishConcViolation(b *Build, bin string, envf func(string) []string, famil
 		return path
 	}
 	minimiseEpisode(b, bin, envf, path, v.checkID, tier)
+	explicitSchedule(b, bin, envf, path, v.checkID, tier)
 	return path
+}
+
+// explicitSchedule records the schedule the (minimised) episode actually ran
+// up to the failure as an explicit list of grants (client, slice in points,
+// forced GC), stores it in the replay file and shrinks it: merge neighbouring
+// slices of one client, cut the tail, turn bounded slices into "run to the end
+// of the call" - each candidate re-executed in a fresh process.
+func explicitSchedule(b *Build, bin string, envf func(string) []string, path, checkID, tier string) {
+	raw, _ := os.ReadFile(path)
+	rec := decodeObj(raw)
+	if rec == nil {
+		return
+	}
+	ep, _ := rec["episode"].(map[string]interface{})
+	if ep == nil {
+		return
+	}
+	glog := filepath.Join(b.Scratch, "grants.log")
+	os.Remove(glog)
+	if ok, _ := replayEpisodeFileWith(b, bin, envf, path, checkID, []string{"-grantlog", glog}); !ok {
+		return
+	}
+	data, err := os.ReadFile(glog)
+	if err != nil {
+		return
+	}
+	type grant struct {
+		C  int   `json:"c"`
+		S  int64 `json:"s"`
+		GC bool  `json:"gc,omitempty"`
+	}
+	var gs []grant
+	for _, l := range strings.Split(strings.TrimSpace(string(data)), "\n") {
+		var g grant
+		var gc int
+		if n, _ := fmt.Sscan(l, &g.C, &g.S, &gc); n == 3 {
+			g.GC = gc == 1
+			gs = append(gs, g)
+		}
+	}
+	if len(gs) == 0 {
+		return
+	}
+	cand := filepath.Join(b.Scratch, "cand-sched.json")
+	try := func(c []grant) bool {
+		ep["grants"] = c
+		writeJSON(cand, rec)
+		ok, _ := replayEpisodeFile(b, bin, envf, cand, checkID)
+		return ok
+	}
+	if !try(gs) {
+		delete(ep, "grants")
+		return
+	}
+	limit := 60 * time.Second
+	if tier == "thorough" {
+		limit = 5 * time.Minute
+	}
+	deadline := time.Now().Add(limit)
+	orig := len(gs)
+	// merge neighbours of the same client
+	merge := func(in []grant) []grant {
+		var out []grant
+		for _, g := range in {
+			if n := len(out); n > 0 && out[n-1].C == g.C && !g.GC && out[n-1].S > 0 {
+				if g.S == 0 {
+					out[n-1].S = 0
+				} else {
+					out[n-1].S += g.S
+				}
+				continue
+			}
+			out = append(out, g)
+		}
+		return out
+	}
+	if m := merge(gs); len(m) < len(gs) && try(m) {
+		gs = m
+	}
+	// drop forced GCs
+	{
+		c := append([]grant{}, gs...)
+		for i := range c {
+			c[i].GC = false
+		}
+		if try(c) {
+			gs = c
+		}
+	}
+	// cut the tail (the list is followed by round-robin to completion)
+	for lo, hi := 0, len(gs); lo < hi && time.Now().Before(deadline); {
+		mid := (lo + hi) / 2
+		if try(gs[:mid]) {
+			hi = mid
+			gs = gs[:mid]
+		} else {
+			lo = mid + 1
+		}
+	}
+	// remove preemptions one by one: let a client run to the end of its call
+	for i := 0; i < len(gs) && time.Now().Before(deadline); i++ {
+		if gs[i].S == 0 {
+			continue
+		}
+		c := append([]grant{}, gs...)
+		c[i].S = 0
+		if try(c) {
+			gs = merge(c)
+			i = -1
+		}
+	}
+	ep["grants"] = gs
+	rec["schedule_note"] = fmt.Sprintf("explicit schedule: %d grants (recorded run: %d); a grant is (client, slice in instrumentation points, 0 = until the call ends); after the list the remaining clients run round-robin to completion", len(gs), orig)
+	writeJSON(path, rec)
+	if ok, _ := replayEpisodeFile(b, bin, envf, path, checkID); !ok {
+		delete(ep, "grants")
+		delete(rec, "schedule_note")
+		writeJSON(path, rec)
+	}
 }
 
 // replayEpisodeFile runs the self-contained episode of a replay file in a
 // fresh process (computing the solo references of its ops first) and reports
 // whether the same check fails again.
 func replayEpisodeFile(b *Build, bin string, envf func(string) []string, path, checkID string) (bool, string) {
+	return replayEpisodeFileWith(b, bin, envf, path, checkID, nil)
+}
+
+func replayEpisodeFileWith(b *Build, bin string, envf func(string) []string, path, checkID string, extra []string) (bool, string) {
 	tmp, _ := os.MkdirTemp(b.Scratch, "rp-")
 	dense := filepath.Join(tmp, "pool.json")
 	r := runWorker(bin, []string{"conc", "-case", path}, nil, 5*time.Minute)
@@ -645,7 +769,7 @@ func replayEpisodeFile(b *Build, bin string, envf func(string) []string, path, c
 		return false, err.Error()
 	}
 	pfx := filepath.Join(tmp, "race")
-	r = runWorker(bin, []string{"conc", "-case", path, "-ref", refs}, envf(pfx), 20*time.Minute)
+	r = runWorker(bin, append([]string{"conc", "-case", path, "-ref", refs}, extra...), envf(pfx), 20*time.Minute)
 	rep := readRaceLog(pfx)
 	switch {
 	case (r.exit == 66 || rep != "") && checkID == "conc-race":
